@@ -420,7 +420,10 @@ class PatternBase:
 
         # Create a stable hash of the patterns
         # noinspection PyTypeChecker
-        pat = hashlib.md5(str(self.patterns).encode('utf-8')).hexdigest()
+        # (the time zone is part of the identity: `TimePattern['%H']` and
+        #  `UTCTimePattern['%H']` in one class need two different helpers)
+        pat = hashlib.md5(str((self.patterns, getattr(self, 'tz_info', None))
+                              ).encode('utf-8')).hexdigest()
 
         # Directly use the hash as part of the identifier
         self._repr = _repr = f'{self.base.__name__}_{pat}'
